@@ -323,6 +323,58 @@ theorem replace_operator_keeps_positions {O : Type} [DecidableEq O] (ops : List 
 
 end Protocols
 
+section AppendAndKeymanager
+variable {PK SK Sig M : Type}
+
+/-- **After an append every keystore still matches its lock validator.** The add-validators ceremony
+rebuilds the existing shares from the old lock and the node's old secrets (`getExistingShares`), writes
+`existing ++ new` to disk and lists `old validators ++ new validators` in the lock. If the old
+keystores matched the old lock (node with share index `j`: secret `i` has public key
+`oldLock.Validators[i].PubShares[j-1]`) and the new shares match the new validators
+(`keystores_match_lock` for the ceremony of the new validators), then for EVERY position `i` of the
+new lock — old and new validators alike — keystore `i` holds the secret of
+`lock.Validators[i].PubShares[j-1]`, the keystores are the old secrets followed by the new ones, and
+the rebuilt shares carry the old validators' group keys in lock order. -/
+theorem append_keystores_match_lock (C : Crypto PK SK Sig M) (j : Nat)
+    (oldVals newVals : List (DistValidator PK Sig)) (oldSecrets : List SK)
+    (existing newShares : List (Share PK SK))
+    (hlen : oldSecrets.length = oldVals.length)
+    (hex : existingShares oldVals oldSecrets = some existing)
+    (hold : oldVals.map (fun dv => dv.pubShares[j - 1]?) = oldSecrets.map (fun sk => some (C.pub sk)))
+    (hnew : newVals.map (fun dv => dv.pubShares[j - 1]?) = (keystore newShares).map (fun sk => some (C.pub sk))) :
+    keystore (appendKeyShares existing newShares) = oldSecrets ++ keystore newShares ∧
+    (appendLockValidators oldVals newVals).map (fun dv => dv.pubShares[j - 1]?) =
+      (keystore (appendKeyShares existing newShares)).map (fun sk => some (C.pub sk)) ∧
+    existing.map (·.pubKey) = oldVals.map (·.pubKey) := by
+  obtain ⟨hsec, hkeys⟩ := existingShares_spec oldVals oldSecrets existing hlen hex
+  have hks : keystore (appendKeyShares existing newShares) = oldSecrets ++ keystore newShares := by
+    unfold keystore appendKeyShares
+    rw [List.map_append]
+    exact congrArg (· ++ _) hsec
+  refine ⟨hks, ?_, hkeys⟩
+  rw [hks]
+  unfold appendLockValidators
+  rw [List.map_append, List.map_append, hold, hnew]
+
+/-- **A keymanager that refuses every import makes `Run` fail on that node** (keymanager mode never
+writes keystores to disk, so a success would leave the node's key shares stored nowhere), and with it
+the ceremony. -/
+theorem keymanager_failure_fails_run (responses : List Bool) (hall : ∀ r ∈ responses, r = false) (diskOk : Bool)
+    (before after : List Bool) :
+    runWritesKeys true responses diskOk = false ∧
+    ceremonyOk (before ++ runWritesKeys true responses diskOk :: after) = false := by
+  have h : runWritesKeys true responses diskOk = false := by
+    unfold runWritesKeys writeKeysToKeymanager
+    cases responses with
+    | nil => rfl
+    | cons r rest => simpa using hall r List.mem_cons_self
+  refine ⟨h, ?_⟩
+  rw [h]
+  unfold ceremonyOk
+  simp
+
+end AppendAndKeymanager
+
 /-! ### Non-vacuity: the hypotheses are satisfiable and the model computes (`toyCrypto`) -/
 
 section Examples
@@ -388,6 +440,13 @@ example : removeThreshold 7 2 0 = some 4 ∧ removeThreshold 7 2 5 = none ∧ re
 
 example : replaceOperator ["a", "b", "c"] "b" "x" = some ["a", "x", "c"] ∧ replaceOperator ["a", "b"] "z" "x" = none := by
   decide
+
+/-- append: old lock validator 0 with node 2's old secret, one new validator; keystores = old ++ new. -/
+example : (existingShares [(⟨(0, 0), [(1, 0), (2, 0), (3, 0)], [], none⟩ : DistValidator (Nat × Nat) Nat)] [(2, 0)]).map
+    (fun ex => keystore (appendKeyShares ex [⟨(0, 1), (2, 1), []⟩])) = some [(2, 0), (2, 1)] := by decide
+
+example : runWritesKeys true [false, false, false] true = false ∧ runWritesKeys true [true] false = true ∧
+    ceremonyOk [true, runWritesKeys true [false] true, true] = false := by decide
 
 end Examples
 
